@@ -7,11 +7,13 @@
         recv: what the generated body saw, one entry per parameter in the order the bodies ran:
               [n, k, bus]  k = "l" list of channels | "s" single signal | "c" plain number;
               every channel was written to its own Out on the constant bus listed in bus
+     [op |-> "ser", how, o]   a further serialisation of the same object (d.hist[2..]): o = [raised, name, ctl,
+                              names, units, variants] decoded from those bytes
      [op |-> "call", args, kw, cmd, defname, pairs]   SynthDef.__call__ observed in the NRT score
    IOEnv.VERIF_L2 = "1" additionally demands the implementation-shaped unit list (drift check). *)
 EXTENDS Naturals, Integers, Sequences, FiniteSets, TLC, Json, IOUtils
 Annots == {} OvChoices == {} DfChoices == {} SpChoices == {} BoundVals == {}
-MaxFuncs == 0 MaxParams == 0 MaxTotal == 0 MaxBound == 0 MaxVariants == 0 MinEmit == 0 SimMode == FALSE VarLens == {} VarW == {}
+MaxFuncs == 0 MaxParams == 0 MaxTotal == 0 MaxBound == 0 MaxVariants == 0 MinEmit == 0 SimMode == FALSE VarLens == {} VarW == {} VarBad == {} HistChoices == {}
 VARIABLES d, phase
 INSTANCE Controls
 Traces == JsonDeserialize(IOEnv.VERIF_TRACES)
@@ -54,7 +56,7 @@ BoundOK(o, dd) ==
             /\ Cardinality(outs) = 1
             /\ \A x \in outs : o.units[x].ins[2][1] = 0 - 1 /\ o.units[x].ins[2][3] = ps[i].bv
 VariantsOK(o, dd, L) ==
-    LET wr == WrittenVariants(dd) IN
+    LET wr == WrittenVariantsL(dd, L) IN
     /\ Len(o.variants) = Len(wr)
     /\ \A v \in 1..Len(wr) :
           \E w \in 1..Len(o.variants) : /\ o.variants[w].n = FullName(dd, wr[v])
@@ -81,6 +83,20 @@ BuildWhy(dd, o) ==
     ELSE IF ~VariantsOK(o, dd, L) THEN "variants"
     ELSE IF WithL2 /\ ~UnitsExact(o, dd) THEN "L2units"
     ELSE "ok"
+\* a later serialisation of the same definition object (e.how = dd.hist[position]): the same function of the request
+SerWhy(dd, e, pos) ==
+    LET L == Layout(dd)  o == e.o IN
+    IF pos > Len(dd.hist) \/ e.how # dd.hist[pos] THEN "history"
+    ELSE IF o.raised # "" THEN "again_raised"
+    ELSE IF o.name # dd.name THEN "again_defname"
+    ELSE IF o.ctl # Defaults(L) THEN "again_defaults"
+    ELSE IF ~NamesOK(o, L) THEN "again_names"
+    ELSE IF ~Covers(o.units, L) THEN "again_slot_source"
+    ELSE IF ~VariantsOK(o, dd, L) THEN "again_variants"
+    ELSE "ok"
+HistoryRecorded(dd, ev) ==      \* the events after the build are the remaining serialisations of the history
+    WithL2 \/ (/\ Len(ev) >= Len(dd.hist)
+               /\ \A k \in 2..Len(dd.hist) : ev[k].op = "ser")
 CallWhy(dd, e) ==
     IF Len(e.args) > Len(TopNames(dd)) THEN "illformed_call"
     ELSE IF e.cmd # "/s_new" \/ e.defname # dd.name THEN "call_cmd"
@@ -89,7 +105,10 @@ CallWhy(dd, e) ==
 
 Step == /\ l >= 1 /\ l <= Len(Traces[tid].ev)
         /\ LET e == Traces[tid].ev[l]
-               why == IF e.op = "build" THEN BuildWhy(d, e.o) ELSE CallWhy(d, e) IN
+               why == IF e.op = "build" THEN (IF l # 1 \/ ~HistoryRecorded(d, Traces[tid].ev) THEN "history"
+                                               ELSE BuildWhy(d, e.o))
+                      ELSE IF e.op = "ser" THEN SerWhy(d, e, l)
+                      ELSE CallWhy(d, e) IN
            IF why = "ok" THEN l' = l + 1
            ELSE /\ PrintT(<<"REJ", Traces[tid].id, l, why>>) /\ l' = 0
         /\ UNCHANGED <<d, phase, tid>>
